@@ -10,9 +10,9 @@
      cv_in x c: x belongs to the set c stands for (an interval, stated without masks);
      cv_val c: the (addr1, addr2, mask) triple acl_ip_data::FactoryParse() stores for c;
      acl_parse / acl_match: ACLIP::parse() / ACLIP::match() over the splay tree;
-     quirk_free cs p: 0.0.0.0 (as an end point of a value of cs, as p, or as p under a configured mask)
-       does not meet an end point in ::1..::fffe:ffff:ffff, and 255.255.255.255 does not meet
-       an end point in ::1:0:0:0..ffff:..:fffe. *)
+   Since /repo 98f97cc the ACL code orders addresses with matchIPAddr() (the numeric order of the
+   128-bit values) instead of Ip::Address::operator< <= > >=, which special-case 0.0.0.0 and
+   255.255.255.255 and are not an order; the side condition the main theorems used to carry is gone. *)
 Require Import SquidV.Bytes SquidV.SplayModel SquidV.SplayProofs SquidV.AclipModel SquidV.AclipProofs.
 Local Open Scope N_scope.
 
@@ -42,22 +42,6 @@ Theorem C42_cidr_mask : forall k (v4 : bool), 0 < k -> k <= (if v4 then 32 else 
 Proof. exact mask_of_cidr_pmask. Qed.
 Print Assumptions C42_cidr_mask.
 
-(* ===== Ip::Address operators ===== *)
-
-(* operator< / <= / > / >= are the numeric order except in two situations *)
-Theorem C42_operators_numeric_except : forall x y, y < TOP ->
-  (~ (x = V4ANY /\ lowv6 y) -> addr_lt x y = (x <? y) /\ addr_le x y = (x <=? y)) /\
-  (~ (x = V4NO /\ highv6 y) -> addr_gt x y = (y <? x) /\ addr_ge x y = (y <=? x)).
-Proof. exact operators_numeric_except. Qed.
-Print Assumptions C42_operators_numeric_except.
-
-(* ... and in those two situations they are not an order at all *)
-Theorem C42_operators_not_an_order_refuted :
-  addr_lt V4ANY 1 = true /\ addr_lt 1 V4ANY = true /\
-  addr_gt V4NO db8_1 = true /\ addr_gt db8_1 V4NO = true.
-Proof. exact operators_not_an_order. Qed.
-Print Assumptions C42_operators_not_an_order_refuted.
-
 (* ===== one value ===== *)
 
 (* firstAddress()/lastAddress() of the stored triple are the two ends of the configured set *)
@@ -68,7 +52,7 @@ Proof. exact first_last_ends. Qed.
 Print Assumptions C42_first_last_are_the_set_ends.
 
 (* aclIpAddrNetworkCompare(client, value): negative below the set, zero inside, positive above *)
-Theorem C42_network_compare_sign : forall c p, cv_ok c -> p < TOP -> tameA p (cv_val c) ->
+Theorem C42_network_compare_sign : forall c p, cv_ok c -> p < TOP ->
   ((net_cmp p (cv_val c) < 0)%Z <-> p < cv_lo c) /\
   ((net_cmp p (cv_val c) = 0)%Z <-> cv_in p c) /\
   ((net_cmp p (cv_val c) > 0)%Z <-> cv_hi c < p).
@@ -76,26 +60,32 @@ Proof. exact netcompare_sign. Qed.
 Print Assumptions C42_network_compare_sign.
 
 (* SplayInserter::Compare(a, b): -1 / +1 when one set lies entirely before the other, 0 iff they overlap *)
-Theorem C42_compare_zero_iff_overlap : forall c1 c2, cv_ok c1 -> cv_ok c2 -> quirk_free_vals [c1; c2] ->
+Theorem C42_compare_zero_iff_overlap : forall c1 c2, cv_ok c1 -> cv_ok c2 ->
   ((icompare (cv_val c1) (cv_val c2) < 0)%Z <-> cv_hi c1 < cv_lo c2) /\
   ((icompare (cv_val c1) (cv_val c2) > 0)%Z <-> cv_hi c2 < cv_lo c1) /\
   ((icompare (cv_val c1) (cv_val c2) = 0)%Z <-> exists x, cv_in x c1 /\ cv_in x c2).
 Proof. exact compare_overlap. Qed.
 Print Assumptions C42_compare_zero_iff_overlap.
 
+(* SplayInserter::IsSubset(a, b) is inclusion of the sets *)
+Theorem C42_is_subset_is_inclusion : forall c1 c2, cv_ok c1 -> cv_ok c2 ->
+  (is_subset (cv_val c1) (cv_val c2) = true <-> cv_lo c2 <= cv_lo c1 /\ cv_hi c1 <= cv_hi c2).
+Proof. exact subset_is_inclusion. Qed.
+Print Assumptions C42_is_subset_is_inclusion.
+
 (* ===== comparators on stored sequences ===== *)
 
 (* on sorted pairwise-disjoint values the sign of the lookup comparator never increases
    (the condition under which the shared splay library finds an element iff one compares equal) *)
 Theorem C42_lookup_comparator_monotone_on_disjoint : forall cs p,
-  Forall cv_ok cs -> p < TOP -> quirk_free cs p -> sd (map cv_val cs) ->
+  Forall cv_ok cs -> p < TOP -> sd (map cv_val cs) ->
   mono (net_cmp p) (map cv_val cs).
 Proof. exact net_cmp_monotone. Qed.
 Print Assumptions C42_lookup_comparator_monotone_on_disjoint.
 
 (* the same for the insertion comparator Compare(new value, .) *)
 Theorem C42_insert_comparator_monotone_on_disjoint : forall cs c,
-  Forall cv_ok (c :: cs) -> quirk_free_vals (c :: cs) -> sd (map cv_val cs) ->
+  cv_ok c -> Forall cv_ok cs -> sd (map cv_val cs) ->
   mono (icompare (cv_val c)) (map cv_val cs).
 Proof. exact icompare_monotone. Qed.
 Print Assumptions C42_insert_comparator_monotone_on_disjoint.
@@ -106,42 +96,35 @@ Print Assumptions C42_insert_comparator_monotone_on_disjoint.
    overlaps; global words anywhere): parse() ends normally (no exception, no freed-but-stored value,
    loop bound not reached), the flags are those of the global words, and the stored ranges are sorted,
    pairwise disjoint and cover exactly the union of the configured sets. *)
-Theorem C42_parse_disjoint_same_union_partial : forall toks cs,
-  Forall tok_parsed toks -> vals_of toks = map cv_val cs -> Forall cv_ok cs -> quirk_free_vals cs ->
+Theorem C42_parse_disjoint_same_union : forall toks cs,
+  Forall tok_parsed toks -> vals_of toks = map cv_val cs -> Forall cv_ok cs ->
   exists t n, acl_parse toks = POk (any4 toks) (any6 toks) t n /\
     (forall x, In x (inorder t) -> first_addr x <= last_addr x) /\
     (forall A x B y C, inorder t = A ++ x :: B ++ y :: C -> last_addr x < first_addr y) /\
     (forall q, (exists w, In w (inorder t) /\ first_addr w <= q <= last_addr w) <-> (exists c, In c cs /\ cv_in q c)).
 Proof. exact parse_disjoint_same_union. Qed.
-Print Assumptions C42_parse_disjoint_same_union_partial.
+Print Assumptions C42_parse_disjoint_same_union.
 
 (* ===== the property ===== *)
 
 (* match(address) <-> address in the union of the configured sets, or its family selected by
-   all / ipv4 / ipv6 -- for all lists of values without host bits, all orders, all addresses,
-   under quirk_free. *)
-Theorem C42_match_iff_in_union_partial : forall toks cs p,
+   all / ipv4 / ipv6 -- for all lists of values without host bits, all orders, all addresses. *)
+Theorem C42_match_iff_in_union : forall toks cs p,
   Forall tok_parsed toks -> vals_of toks = map cv_val cs -> Forall cv_ok cs ->
-  p < TOP -> quirk_free cs p ->
+  p < TOP ->
   exists t n, acl_parse toks = POk (any4 toks) (any6 toks) t n /\
     (snd (acl_match (any4 toks) (any6 toks) t p) = true <->
        (any4 toks = true /\ any6 toks = true) \/ (any4 toks = true /\ isIPv4 p = true) \/
        (any6 toks = true /\ isIPv4 p = false) \/ (exists c, In c cs /\ cv_in p c)).
 Proof. exact acl_correct. Qed.
-Print Assumptions C42_match_iff_in_union_partial.
+Print Assumptions C42_match_iff_in_union.
 
 (* ... also for any sequence of lookups (each one re-shapes the tree) *)
-Theorem C42_match_sequence_partial : forall cs f4 f6, Forall cv_ok cs -> forall ps t,
-  stored_ok cs t -> Forall (fun p => p < TOP /\ quirk_free cs p) ps ->
+Theorem C42_match_sequence : forall cs f4 f6 ps t,
+  stored_ok cs t -> Forall (fun p => p < TOP) ps ->
   Forall2 (fun p b => b = true <-> acl_spec f4 f6 cs p) ps (snd (acl_match_seq f4 f6 t ps)).
 Proof. exact acl_match_seq_ok. Qed.
-Print Assumptions C42_match_sequence_partial.
-
-(* lists of IPv4 values satisfy the side condition for EVERY address looked up *)
-Theorem C42_ipv4_lists_need_no_side_condition : forall cs p,
-  Forall cv_ok cs -> Forall v4_only cs -> quirk_free cs p.
-Proof. exact v4_lists_quirk_free. Qed.
-Print Assumptions C42_ipv4_lists_need_no_side_condition.
+Print Assumptions C42_match_sequence.
 
 (* the global words *)
 Theorem C42_global_words :
@@ -150,38 +133,21 @@ Theorem C42_global_words :
 Proof. exact global_words. Qed.
 Print Assumptions C42_global_words.
 
-(* ===== the statement without the side condition is false for the code as it is ===== *)
+(* ===== regressions: the cases that went wrong before 98f97cc, computed ===== *)
 
-(* "acl x src ::1 0.0.0.0" does not match ::1 ... *)
-Theorem C42_match_iff_in_union_refuted_missed :
-  let cs := [CNet 1 0; CNet V4ANY 0] in
-  Forall cv_ok cs /\ acl_spec false false cs 1 /\
-  exists t n, acl_parse (plain_toks cs) = POk false false t n /\ snd (acl_match false false t 1) = false.
-Proof. exact missed_witness. Qed.
-Print Assumptions C42_match_iff_in_union_refuted_missed.
+(* "acl x src ::1 0.0.0.0" matches ::1; "acl x src ::1-::5" does not match 0.0.0.0;
+   "acl x src 2001:db8::1-2001:db8::5" does not match 255.255.255.255 *)
+Theorem C42_fixed_anyaddr_noaddr_cases :
+  (let cs := [CNet 1 0; CNet V4ANY 0] in
+   exists t n, acl_parse (plain_toks cs) = POk false false t n /\ snd (acl_match false false t 1) = true) /\
+  (let cs := [CRange 1 5 0] in
+   exists t n, acl_parse (plain_toks cs) = POk false false t n /\ snd (acl_match false false t V4ANY) = false) /\
+  (let cs := [CRange db8_1 db8_5 0] in
+   exists t n, acl_parse (plain_toks cs) = POk false false t n /\ snd (acl_match false false t V4NO) = false).
+Proof. exact fixed_anyaddr_order. Qed.
+Print Assumptions C42_fixed_anyaddr_noaddr_cases.
 
-(* ... while "acl x src 0.0.0.0 ::1" does: the answer depends on the order of the values *)
-Theorem C42_order_independence_refuted :
-  let cs := [CNet V4ANY 0; CNet 1 0] in
-  exists t n, acl_parse (plain_toks cs) = POk false false t n /\ snd (acl_match false false t 1) = true.
-Proof. exact order_witness. Qed.
-Print Assumptions C42_order_independence_refuted.
-
-(* "acl x src ::1-::5" matches 0.0.0.0 *)
-Theorem C42_match_iff_in_union_refuted_spurious_anyaddr :
-  let cs := [CRange 1 5 0] in
-  Forall cv_ok cs /\ ~ acl_spec false false cs V4ANY /\
-  exists t n, acl_parse (plain_toks cs) = POk false false t n /\ snd (acl_match false false t V4ANY) = true.
-Proof. exact spurious_any_witness. Qed.
-Print Assumptions C42_match_iff_in_union_refuted_spurious_anyaddr.
-
-(* "acl x src 2001:db8::1-2001:db8::5" matches 255.255.255.255 *)
-Theorem C42_match_iff_in_union_refuted_spurious_noaddr :
-  let cs := [CRange db8_1 db8_5 0] in
-  Forall cv_ok cs /\ ~ acl_spec false false cs V4NO /\
-  exists t n, acl_parse (plain_toks cs) = POk false false t n /\ snd (acl_match false false t V4NO) = true.
-Proof. exact spurious_no_witness. Qed.
-Print Assumptions C42_match_iff_in_union_refuted_spurious_noaddr.
+(* ===== what remains false for the code as it is ===== *)
 
 (* "::/0": prefix length 0 becomes the all-ones mask, so the value is the single address :: and
    not the network of all addresses *)
@@ -201,17 +167,11 @@ Proof. exact reversed_range_witness. Qed.
 Print Assumptions C42_reversed_range_frees_stored_value.
 
 (* ===== the hypotheses are satisfiable ===== *)
-(* 10.0.0.0/8, 192.168.7.16-192.168.7.23, 2001:db8::1 *)
-Example C42_ex_values_ok : Forall cv_ok [CNet net10 24; CRange blk_lo blk_hi 0; CNet db8_1 0].
+(* 10.0.0.0/8, 192.168.7.16-192.168.7.23, 2001:db8::1, 0.0.0.0, ::1-::5 *)
+Example C42_ex_values_ok :
+  Forall cv_ok [CNet net10 24; CRange blk_lo blk_hi 0; CNet db8_1 0; CNet V4ANY 0; CRange 1 5 0].
 Proof. exact ex_values_ok. Qed.
 
 Example C42_ex_plain_tokens : forall cs,
   Forall tok_parsed (plain_toks cs) /\ vals_of (plain_toks cs) = map cv_val cs.
 Proof. exact ex_plain_tokens. Qed.
-
-(* 10.0.0.0/8 next to 2001:db8::1, address 2001:db8::5 looked up *)
-Example C42_ex_quirk_free_mixed : quirk_free [CNet net10 24; CNet db8_1 0] db8_5.
-Proof. exact ex_quirk_free_mixed. Qed.
-
-Example C42_ex_tameA : tameA db8_5 (cv_val (CRange db8_1 db8_5 0)).
-Proof. exact ex_tameA. Qed.
